@@ -421,6 +421,13 @@ class ScriptedSim(mosaik_api_v3.Simulator):
             raise exc(f"injected failure in {self.sid}.{kind}")
         if how == "exit":
             os._exit(3)
+        if how == "exit_idle":
+            # answer this request normally, then die a moment later while waiting for the next request
+            import threading
+            t = threading.Timer(f.get("idle_delay", 0.003), os._exit, (3,))
+            t.daemon = True
+            t.start()
+            return
         if how == "close":
             # close the socket to mosaik and linger without answering
             ch = getattr(self.mosaik, "_channel", None)
